@@ -94,6 +94,18 @@ def pick(got, rng):
     return got
 
 
+# Recorded finding (not part of the default runs, see `assumptions`): a first complete set is failed back,
+# a new part of the same hash arrives, the user answers the old PaymentClaimable with claim_funds: the
+# new HTLC is dropped from claimable_payments without being failed back (it never times out).
+PROBES = [("claim_funds_drops_unshown_htlcs", {"cfg": {"topo": "par", "n": 2}, "ops": [
+    {"op": "reg", "node": 1, "reg": 1, "amt": 4000000},
+    {"op": "send", "from": 0, "id": 1, "reg": 1, "paths": [[1]], "amts": [4000000]}, {"op": "pump"},
+    {"op": "failback", "reg": 1}, {"op": "pump"},
+    {"op": "send", "from": 0, "id": 2, "reg": 1, "paths": [[1]], "amts": [1000000], "total": 4000000}, {"op": "pump"},
+    {"op": "claim", "reg": 1, "force": True}, {"op": "pump"},
+    {"op": "tick", "node": 1}, {"op": "tick", "node": 1}, {"op": "settle"}]})]
+
+
 def run(tier, seed):
     thorough = tier == "thorough"
     return pc.run_check(
@@ -104,7 +116,7 @@ def run(tier, seed):
         n_tlc=8000 if thorough else 900, n_rand=12000 if thorough else 900,
         need={"ev_PaymentClaimable": 100, "ev_PaymentClaimed": 50, "claim": 50, "failback": 20, "msg_update_fail_htlc": 100,
               "msg_update_fulfill_htlc": 50, "tick": 50, "block": 50, "quiet": 100},
-        selftests=SELFTESTS, pick=pick,
+        selftests=SELFTESTS, pick=pick, probes=PROBES,
         assumptions=pc.COMMON_ASSUMPTIONS + [
             "the HMAC inside a payment secret is not modelled: the driver produces concrete secrets of each class (issued "
             "for this hash, bit-flipped at a seeded position, issued for another hash / amount, absent)",
